@@ -15,6 +15,18 @@ CLAIMED = {
             "Proof: read_ue/read_se/read_u of the model decode every codeword (all 2^32-1 codeNums, all widths) to the standard's value, consume exactly the codeword, reject >=32 leading zeros and truncated codewords, and never overflow; for arbitrary surrounding bits (hence any offset). The model is tied to rbsp::BitReader by running both on thousands of codeword sequences over contiguous, chunked and incomplete sources.",
             "Trusted: Coq kernel; bitstream-io modelled at documentation level; correspondence bounded by the generator (all codewords with prefix <= 10 (quick) / 15 (thorough), boundaries beyond).",
             "DESIGN.md 5 C07"),
+    "C14": ("Coq proof (list induction) characterising has_more_rbsp_data / finish_rbsp / finish_sei_payload of the model + exhaustive differential execution on short bit strings at every position",
+            "Proof: for every bit source (= every position of every RBSP) the model's more-data query is true iff a 1 lies strictly after the current bit and returns the source unchanged; finish_rbsp succeeds iff the remainder is 1 0^k, reports remaining data iff a later 1 exists and a read error otherwise; finish_sei_payload additionally accepts an empty remainder. Tied to rbsp::BitReader by exhaustive runs over all strings <= 2 bytes x all positions plus sampled NAL-path cases with cabac_zero_words, chunked and incomplete.",
+            "Trusted: Coq kernel; bitstream-io modelled at documentation level; an independent Python oracle re-evaluates the property text on contiguous inputs.",
+            "DESIGN.md 5 C14"),
+    "C15": ("Coq proof (invariant over operation sequences) that the chunk-reader model delivers head ++ concat tail + differential execution incl. clones",
+            "Proof: under RefNal::new's precondition (non-empty chunks) every sequence of read/fill_buf/consume hands over a prefix of the concatenated chunks with `delivered ++ remaining = all` as invariant; at the end a complete NAL reports EOF forever, an incomplete one WouldBlock forever and never EOF; header accessors of the model equal the implementation's dumped table. Tied to nal::RefNalReader by exhaustive small-scope runs (strings <= 5, all partitions, random valid scripts with clones).",
+            "Trusted: Coq kernel; clone independence is by construction in the model and observed on the real reader by forking it in the harness.",
+            "DESIGN.md 5 C15"),
+    "C08": ("Coq proof (induction over delivery histories) that the accumulator model refines a whole-history specification + exhaustive differential execution over histories x policies",
+            "Proof: for every history of fragment deliveries with non-empty slices and every Buffer/Ignore policy, the invocations of the model equal the specification (all bytes of the current NAL so far, complete iff this delivery ended it, silence after Ignore and for empty NALs), the end of a NAL restores the initial state, and a never-ignored non-empty NAL gets exactly one complete invocation. Tied to push::NalAccumulator by all histories <= 4 deliveries x all policies plus random long ones; an independent Python oracle replays the property text.",
+            "Trusted: Coq kernel; precondition of nal_fragment (non-empty slices) as stated by the trait.",
+            "DESIGN.md 5 C08"),
 }
 
 PENDING_REASON = "not claimed yet in this revision: model and theorems for this layer are still being built (see DESIGN.md section 9 for the order of work)"
